@@ -73,7 +73,44 @@ def dt_forwards():
         params = {p.arg for p in lam.args.args}
         fw = [(k.arg, k.value.id) for k in call.keywords
               if k.arg is not None and isinstance(k.value, ast.Name) and k.value.id in params]
+        # kw=<CONST> if <p> is None else <p>: forwarded, None replaced (which constant: see dt_none_defaults)
+        for k in call.keywords:
+            d = _none_default(k.value, params)
+            if k.arg is not None and d is not None:
+                fw.append((k.arg, d[0]))
         rows.append((name, fw))
+    enc_p = lambda p: f'({cstr(p[0])}, {cstr(p[1])})'
+    return 'list (list N * list (list N * list N))', _lst(rows, lambda r: f'({cstr(r[0])}, {_lst(r[1], enc_p)})')
+
+
+def _none_default(node, params):
+    """(parameter, constant name) for `<CONST> if <p> is None else <p>`"""
+    if not isinstance(node, ast.IfExp):
+        return None
+    t = node.test
+    if not (isinstance(t, ast.Compare) and len(t.ops) == 1 and isinstance(t.ops[0], ast.Is)
+            and isinstance(t.left, ast.Name) and t.left.id in params
+            and isinstance(t.comparators[0], ast.Constant) and t.comparators[0].value is None):
+        return None
+    if not (isinstance(node.orelse, ast.Name) and node.orelse.id == t.left.id and isinstance(node.body, ast.Name)):
+        return None
+    return t.left.id, node.body.id
+
+
+def dt_none_defaults():
+    """per type: [(constructor keyword, module constant used when the parameter is None)]"""
+    rows = []
+    for name, lam in _table().items():
+        call = _ctor_call(lam)
+        params = {p.arg for p in lam.args.args}
+        nd = []
+        for k in call.keywords:
+            d = _none_default(k.value, params)
+            if k.arg is not None and d is not None:
+                if d[0] != k.arg:
+                    raise Shape('None-default forwards another parameter')
+                nd.append((k.arg, d[1]))
+        rows.append((name, nd))
     enc_p = lambda p: f'({cstr(p[0])}, {cstr(p[1])})'
     return 'list (list N * list (list N * list N))', _lst(rows, lambda r: f'({cstr(r[0])}, {_lst(r[1], enc_p)})')
 
@@ -96,7 +133,7 @@ def dt_bodies_as_modelled():
         'scaled': 'ScaledInteger(scale=scale, min=min * scale, max=max * scale, **floatargs(kwds))',
         'double': 'FloatRange(min=min, max=max, **floatargs(kwds))',
         'blob': 'BLOBType(minbytes=minbytes, maxbytes=maxbytes)',
-        'string': 'StringType(minchars=minchars, maxchars=maxchars, isUTF8=isUTF8)',
+        'string': 'StringType(minchars=minchars, maxchars=UNLIMITED if maxchars is None else maxchars, isUTF8=isUTF8)',
         'array': 'ArrayOf(get_datatype(members, pname), minlen=minlen, maxlen=maxlen)',
         'tuple': 'TupleOf(*tuple((get_datatype(t, pname) for t in members)))',
         'enum': 'EnumType(pname, members=members)',
@@ -150,10 +187,11 @@ def get_datatype_wraps_exceptions():
 
 
 def export_nondefault_only():
+    """exportProperties: exported are 'always' / mandatory properties and values different from the default"""
     f = find_func(find_class(parse(P), 'HasProperties'), 'exportProperties')
     s = src(f).replace(' ', '')
     ok = ("val=self.propertyValues.get(pn,po.default)" in s
-          and "ifpo.exportand(po.export=='always'orval!=po.default):" in s
+          and "ifpo.exportand(po.export=='always'orpo.mandatoryorval!=po.default):" in s
           and 'val=po.datatype.export_value(val)' in s and 'res[po.extname]=val' in s)
     return 'bool', cbool(ok)
 
@@ -310,10 +348,10 @@ COMPAT_BODIES = {
     'ScaledInteger': NUM_COMPAT,
     'IntRange': ("if isinstance(other, (IntRange, FloatRange, ScaledInteger)):\n    other.validate(self.min)\n"
                  "    other.validate(self.max)\n    return\nif isinstance(other, (EnumType, BoolType)):\n"
-                 "    for i in range(self.min, self.max + 1):\n        other(i)\n"
+                 "    for i in range(self.min, self.max + 1):\n        other(i)\n    return\n"
                  "raise WrongTypeError('incompatible datatypes')"),
     'EnumType': 'for m in self._enum.members:\n    other(m)',
-    'BoolType': 'other(False)\nother(True)',
+    'BoolType': 'other.validate(False)\nother.validate(True)',
     'BLOBType': ("try:\n    if self.minbytes < other.minbytes or self.maxbytes > other.maxbytes:\n"
                  "        raise RangeError('incompatible datatypes')\nexcept AttributeError:\n"
                  "    raise WrongTypeError('incompatible datatypes') from None"),
@@ -344,7 +382,7 @@ def struct_sets_no_client_in_init():
     return 'bool', cbool('client' not in src(f))
 
 
-FACTS = [dt_params, dt_has_kwds, dt_forwards, dt_uses_floatargs, dt_bodies_as_modelled, floatargs_keys,
+FACTS = [dt_params, dt_has_kwds, dt_forwards, dt_none_defaults, dt_uses_floatargs, dt_bodies_as_modelled, floatargs_keys,
          get_datatype_none_passthrough, get_datatype_old_syntax, get_datatype_sets_client,
          get_datatype_wraps_exceptions, export_nondefault_only, get_info_shape, float_relres_default,
          prop_defaults_as_modelled, export_bodies_as_modelled, scaled_export_properties_as_modelled,
